@@ -265,6 +265,9 @@ class World:
         for kind, val in sel[2:]:
             if kind == "compound" and any(p[0] == "not" and p[1][0] == "class" for p in val):
                 self.stats["probe:class_inside_not_in_later_compound"] += 1
+        for kind, val in sel:
+            if kind == "compound" and any(p[0] == "not" and p[1][0] == "pclass" and "(" in p[1][1] for p in val):
+                self.stats["probe:functional_pseudo_in_not"] += 1
         return base
 
     def live(self):
